@@ -32,7 +32,11 @@ func needDims(a *mc.Agg, dims ...string) []string {
 	return errs
 }
 
-func c01Work(c *mc.Ctx) {
+func c01Work(c *mc.Ctx) { enumCases(c, c01Case) }
+
+// enumCases walks the whole bounded universe, handing this worker's shard of
+// (configuration, type-in-position, value) cases to f.
+func enumCases(c *mc.Ctx, f func(c *mc.Ctx, cfg ref.Cfg, it ref.Item, v ref.V, vs string, undoc string)) {
 	items := ref.Universe(c.Tier)
 	lvl := lvlFor(c.Tier)
 	for ti, it := range items {
@@ -48,24 +52,29 @@ func c01Work(c *mc.Ctx) {
 			if ref.ClassOf(cfg, it.T, "") == ref.CR {
 				continue // documented: the repeated form does not work outside a struct
 			}
-			if v, _ := ref.Accept(cfg, it.T, ""); v == ref.MustReject {
+			verdict, why := ref.Accept(cfg, it.T, "")
+			if verdict == ref.MustReject {
 				continue
+			}
+			undoc := ""
+			if verdict == ref.Either {
+				undoc = "undoc:" + why + "|"
 			}
 			for _, v := range vals {
 				vs := ref.Str(it.T, v)
 				if !c.Begin(desc(cfg, it, vs, "")) {
 					continue
 				}
-				c01Case(c, cfg, it, v, vs)
+				f(c, cfg, it, v, vs, undoc)
 			}
 		}
 	}
 }
 
-func c01Case(c *mc.Ctx, cfg ref.Cfg, it ref.Item, v ref.V, vs string) {
+func c01Case(c *mc.Ctx, cfg ref.Cfg, it ref.Item, v ref.V, vs string, undoc string) {
 	c.Dim("pos:" + it.Pos)
 	c.Dim("cfg:" + cfg.String())
-	pre := fmt.Sprintf("%s|%s|%s|", cfg, it.Pos, it.T)
+	pre := fmt.Sprintf("%s|%s|%s|%s", cfg, it.Pos, it.T, undoc)
 	c.Guard(pre, func() {
 		p := NewPlenc(cfg)
 		rv := ref.ToReflect(it.T, v)
@@ -75,6 +84,10 @@ func c01Case(c *mc.Ctx, cfg ref.Cfg, it ref.Item, v ref.V, vs string) {
 			c.Violation(pre+"marshal-error", err.Error())
 			return
 		}
+		if len(data) > 0 && vs != ref.Str(it.T, ref.Zero(it.T)) {
+			c.NonTrivial()
+		}
+		c.Ops(2)
 		out := fresh(it.T)
 		if err := p.Unmarshal(data, out.Interface()); err != nil {
 			c.Outcome("unmarshal-error")
@@ -83,9 +96,6 @@ func c01Case(c *mc.Ctx, cfg ref.Cfg, it ref.Item, v ref.V, vs string) {
 		}
 		got := ref.FromReflect(it.T, out.Elem())
 		want := ref.Expect(cfg, it.T, "", v, false)
-		if len(data) > 0 && vs != ref.Str(it.T, ref.Zero(it.T)) {
-			c.NonTrivial()
-		}
 		if path, detail, differ := ref.Diff(it.T, want, got); differ {
 			c.Outcome("mismatch")
 			c.Violation(pre+"mismatch:"+path, detail+" data="+hx(data))
